@@ -689,6 +689,7 @@ def emit_fn(spec, impl_item, linemap_cb):
         if L['after']:
             bed.insert(toks[cl][3], block(L['after'], '%s#loop%d#epilogue' % (spec.name, n), 'hint', None))
     # T12 / T13: exact token-sequence rewrites named in the contract
+    replaced_tok = set()
     for kind, pat, repl in spec.abstracts:
         ptoks = [t[1] for t in code_tokens(lex(pat))]
         if not ptoks:
@@ -707,6 +708,7 @@ def emit_fn(spec, impl_item, linemap_cb):
             raise AnchorLost('T13: path `%s` does not occur in fn %s' % (pat, spec.name))
         for z in hits:
             bed.replace(toks[z][2], toks[z + len(ptoks) - 1][3], repl)
+            replaced_tok.update(range(z, z + len(ptoks)))
         info.setdefault('rewrites', []).append({'rule': kind, 'source': pat, 'emitted': repl, 'count': len(hits)})
         rules.setdefault(kind, [])
     # ghost-only hint blocks anchored after a statement that is named by its exact tokens (T7 extension)
@@ -737,6 +739,8 @@ def emit_fn(spec, impl_item, linemap_cb):
     # T4 rename self -> self_
     if 'T4' in rules:
         for z in range(ba + 1, bb):
+            if z in replaced_tok:
+                continue   # inside a T12/T13 rewrite: the replacement text is written with `self_` already
             if toks[z][0] == 'ident' and toks[z][1] == 'self':
                 bed.replace(toks[z][2], toks[z][3], 'self_')
     if 'T10' in rules:
